@@ -98,7 +98,7 @@ func init() {
 	}
 	const vp = "visitor-per-item: in the command's worker loops every printer, dumper, traverser, formatter or name resolver is created in the iteration that uses it; one created before the loop carries its state (the printer's mode and last chunk, the resolver's tables) from one file into the next (seed C02-9: -pb printed a spurious close tag in front of every later file that starts with HTML)."
 	vpF := []report.Floor{{Rule: "visitor-per-item", What: "uses", Min: 4}}
-	for _, id := range []string{"C02", "C11", "C13"} {
+	for _, id := range []string{"C02", "C11", "C13", "C14", "C15"} {
 		extendProp(id, vp, vpF, func(c *Ctx) {
 			c.Fixture("mini", "visitor-per-item", true, func(p *load.Program, tb *kinds.Table) *report.RuleResult {
 				w, _ := effects.NewWorld(p)
